@@ -25,6 +25,7 @@ BOUNDS = {"quick": "8 fault kinds x the C01 layout catalogue (<=2 envelopes, Foc
 OPTS = {"quick": {"max_paths": 48, "timeout_ms": 10000, "case_timeout_s": 900, "exact_close": True},
         "thorough": {"max_paths": 96, "timeout_ms": 30000, "case_timeout_s": 1800, "exact_close": True}}
 
+# further fault kinds with their own case lists: outside (composite), foreign (envelope), destroyed
 FAULTS = ["kraus-incomplete", "kraus-wrongsize", "povm-wrongsize", "customop-wrongsize", "wrong-kind", "annihilate-vacuum"]
 
 
@@ -51,6 +52,15 @@ def cases(tier):
                      {"kind": "env", "env": "e2", "order": "PF", "level": "V"}], [["e0", "e1", "c0"], ["e2"]])
     for act in ("cx", "kraus", "povm", "combine", "trace_out", "resize"):
         out.append({"id": f"outside-container/{act}", "fault": "outside", "act": act, "world": w})
+    # a subsystem of ANOTHER envelope handed to an envelope-level call
+    for lid, blocks in (("E0", [{"kind": "own", "sub": "f0", "level": "V"}, {"kind": "own", "sub": "p0", "level": "V"},
+                                {"kind": "own", "sub": "p1", "level": "V"}, {"kind": "own", "sub": "f1", "level": "V"}]),
+                        ("E1", [{"kind": "env", "env": "e0", "order": "FP", "level": "V"},
+                                {"kind": "own", "sub": "p1", "level": "V"}, {"kind": "own", "sub": "f1", "level": "V"}])):
+        wf = cm.world(cm.subs(2, 0, 2), blocks)
+        for act in ("kraus", "povm", "op", "measure", "reorder", "trace_out"):
+            for foreign in ("p1", "f1"):
+                out.append({"id": f"foreign-member/{lid}/{act}/{foreign}", "fault": "foreign", "act": act, "world": wf, "foreign": foreign})
     for lid, wd, t in (("ps", w, "p0"), ("ps-partner", w, "p1"),
                        ("env", cm.world(cm.subs(1, 0, 2), [{"kind": "env", "env": "e0", "order": "FP", "level": "V"}]), "p0"),
                        ("own", cm.world(cm.subs(1, 0, 2), [{"kind": "own", "sub": "p0", "level": "V"},
@@ -149,6 +159,8 @@ def scenario(B, case):
         return _outside(B, W, case)
     if fault == "destroyed":
         return _destroyed(B, W, case)
+    if fault == "foreign":
+        return _foreign(B, W, case)
     t = W.sub(case["target"])
     pre = W.snapshot()
     raised = None
@@ -243,3 +255,37 @@ def _destroyed(B, W, case):
     for s in post.live()[:2]:
         _continuation(B, W, s)
     checks.check_wf(B, W, W.snapshot(), "C17/destroyed continuation wf", unit=True, numeric=False)
+
+
+def _foreign(B, W, case):
+    """an envelope-level request that names a subsystem of another envelope must be rejected"""
+    import numpy as np
+
+    from photon_weave.operation import FockOperationType, Operation, PolarizationOperationType
+
+    h = W.h
+    e0 = W.envs["e0"]
+    x = W.sub(case["foreign"])
+    act = case["act"]
+    pre = W.snapshot()
+    raised = None
+    try:
+        if act == "kraus":
+            e0.apply_kraus([B.jnp.array(np.diag([1.0, 0.6])), B.jnp.array(np.array([[0, 0.8], [0, 0]]))], x)
+        elif act == "povm":
+            e0.measure_POVM([B.jnp.array(np.diag([1.0, 0.6])), B.jnp.array(np.diag([0.0, 0.8]))], x, destructive=False)
+        elif act == "op":
+            op = Operation(PolarizationOperationType.X) if isinstance(x, h.Polarization) else Operation(FockOperationType.Identity)
+            e0.apply_operation(op, x)
+        elif act == "measure":
+            e0.measure(x, separate_measurement=True, destructive=False)
+        elif act == "reorder":
+            e0.reorder(x)
+        elif act == "trace_out":
+            e0.trace_out(x)
+    except Exception as e:
+        raised = e
+    B.require_structural(raised is not None, f"C17: Envelope.{act} with a subsystem of another envelope was not rejected")
+    post = W.snapshot()
+    checks.compare_unchanged(B, W, pre, post, f"C17/foreign-member {act}")
+    checks.check_wf(B, W, post, "C17/foreign wf", unit=True)
